@@ -623,7 +623,7 @@ def _case_stats(case, out, dist):
 
 def correspondence(ctx) -> CorrResult:
     rng = ctx.rng
-    n_models = ctx.scale(300, 9000)
+    n_models = ctx.scale(300, 6000)
     per = 80
     res = CorrResult()
     dist = {"transform": {}, "equations": {}, "periods": {}, "plan_points": {}, "errors": {}, "identities": 0,
@@ -674,7 +674,7 @@ def correspondence(ctx) -> CorrResult:
             rec.merge(r)
         shards.append(chunk)
         texts.append(shard_text(chunk, rec))
-    results = core.run_cases(ctx, texts)
+    results = core.run_cases(ctx, texts, timeout=ctx.scale(900, 3000))
     res.shards = len(texts)
     for k, (ok, out) in enumerate(results):
         chunk = shards[k]
@@ -727,6 +727,23 @@ def _transform_value(kind, x, lag):
         return {"none": lambda: x, "log": lambda: np.log(x), "diff": lambda: x - lag,
                 "diff_log": lambda: np.log(x) - np.log(lag), "roc": lambda: x / lag,
                 "pct": lambda: 100 * (x / lag - 1), "flat": lambda: x - lag}[kind]()
+
+
+def _rounding_scale(kind, x, lag) -> float:
+    """magnitude of the quantities whose rounding error enters transform(x, lag) when it is recomputed from the
+    output levels (a difference of huge levels, of logs, 100*(ratio-1)): the comparison tolerance is relative to it"""
+    x, lag = abs(float(x)), abs(float(lag))
+    if kind in ("diff", "flat"):
+        return x + lag
+    if kind == "log":
+        return abs(math.log(x)) if x > 0 else 0.0
+    if kind == "diff_log":
+        return (abs(math.log(x)) if x > 0 else 0.0) + (abs(math.log(lag)) if lag > 0 else 0.0)
+    if kind == "pct":
+        return 100.0 * (1 + (x / lag if lag > 0 else 0.0))
+    if kind == "roc":
+        return x / lag if lag > 0 else 0.0
+    return x
 
 
 def _finite(*xs):
@@ -813,7 +830,7 @@ def check_property(case, order) -> tuple[list[Failure], dict]:
                 continue
             info["equation_cells"] += 1
             gap = float(lhs_v - (rhs_v + res_v))
-            scale = 1 + abs(float(lhs_v)) + abs(float(rhs_v)) + abs(float(res_v))
+            scale = 1 + abs(float(lhs_v)) + abs(float(rhs_v)) + abs(float(res_v)) + _rounding_scale(e["tr"], x, lag)
             if abs(gap) > 1e-8 * scale:
                 if p is not None:
                     r_in = inp("res_" + e["lhs"], t) if case["opts"]["shocks_from_data"] else 0.0
@@ -850,7 +867,8 @@ def check_property(case, order) -> tuple[list[Failure], dict]:
                     continue
                 got = _transform_value(p["kind"], x, ref)
                 info["exogenized_cells"] += 1
-                if not _finite(got) or abs(float(got) - exo) > 1e-8 * (1 + abs(exo) + abs(float(x)) + abs(float(ref))):
+                if not _finite(got) or abs(float(got) - exo) > 1e-8 * (1 + abs(exo) + abs(float(got))
+                                                                       + _rounding_scale(p["kind"], x, ref)):
                     fails.append(Failure(
                         f"implied-value:{p['kind']}", f"exogenized {e['lhs']} ({p['kind']}) does not take the implied value "
                                                       f"at period offset {t}",
